@@ -747,11 +747,14 @@ class ExprMixin:
         if k == "list":
             r = V.r(base.z)
             n = st.hread("$llen", r)
-            i = self.norm_index(self.as_int(idx), n)
             eth = th.args[0] if th.args and th.args[0].name != "Any" else None
             outs = []
             if st.pure:
+                # specifications index from the front (a negative literal still wraps); symbolic indices are taken as is
+                raw = z3.simplify(self.as_int(idx))
+                i = z3.simplify(raw + n) if (z3.is_int_value(raw) and raw.as_long() < 0) else raw
                 return [Out("val", st, self.elem_typed(st, z3.Select(st.hread("$litems", r), i), eth))]
+            i = self.norm_index(self.as_int(idx), n)
             for s2, ok in self.branch(st, z3.And(0 <= i, i < n)):
                 if ok:
                     outs.append(Out("val", s2, self.elem_typed(s2, z3.Select(s2.hread("$litems", r), i), eth)))
